@@ -107,6 +107,20 @@ func c09Case(w *rt.W, text string, r date.Rule, allPaths bool) int {
 			g, err = date.DefaultParser(nB(text), r)
 			var pb *date.ParseError[nB]
 			judge("DefaultParser[named []byte]", g, err, errors.As(err, &pb) || dateTyped(err))
+			// named types that print themselves differently from what they contain
+			g, err = date.DefaultParser(loudS(text), r)
+			judge("DefaultParser[string type with String()]", g, err, errTypeHas(err, "*date.ParseError["))
+			g, err = date.DefaultParser(trimB(text), r)
+			judge("DefaultParser[[]byte type with trimming String()]", g, err, errTypeHas(err, "*date.ParseError["))
+			if len(text)%2 == 0 {
+				g, err = date.DefaultParser(errS(text), r)
+				judge("DefaultParser[string type with Error()]", g, err, errTypeHas(err, "*date.ParseError["))
+				g, err = date.DefaultParser(hexB(text), r)
+				judge("DefaultParser[[]byte type with hex String()]", g, err, errTypeHas(err, "*date.ParseError["))
+			} else {
+				g, err = date.DefaultParser(fmtS(text), r)
+				judge("DefaultParser[string type with Format()]", g, err, errTypeHas(err, "*date.ParseError["))
+			}
 		}
 		{
 			g, err := date.Parser([]byte(text), r)
